@@ -4,7 +4,49 @@ import json, subprocess
 
 ALL = ["C%02d" % i for i in range(1, 21)]
 
+TECH = "contract-based deductive verification: WP/VC generation over go/ssa of the working tree, z3/cvc5"
+
 CLAIMED = {
+ "C01": dict(
+  text="Deductive proof, on the real handlers, that every emission toward a peer (Allocation.WriteTo, whose precondition IS the property: a permission for the destination's IP or a channel bound to exactly that address) is reached only after the lookup for the request's own allocation succeeded for the same address value; that the payload/destination handed to the relay socket are the ones decoded; that AddPermission / AddChannelBind / CreateTCPConnection are reachable only after GrantPermission returned nil for that IP (request-local ghost fact) and, for permissions and bindings, after the address-family check; and that the expiry closures remove exactly their own entry (permission key invariant).",
+  ref="9 (C01)", note="Assumed: a handler runs atomically w.r.t. timers and other handlers (A1); the operator's handlers are arbitrary deterministic functions; stun XOR address decoding (specs/stun.spec); timers fire (A2). The allocation's well-formedness invariants are preconditions of the handlers (established by the allocation package's own contracts).", technique=TECH),
+ "C02": dict(
+  text="Deductive proof on the relay read loop (packetConnHandler, under a loop invariant) and accept loop (connHandler): every write toward the client is preceded by a successful channel lookup by exact address (AddrEqual: IP and port) or permission lookup by IP for the datagram's real source, goes to the owning allocation's 5-tuple source over its TurnSocket, carries the bound channel's number or the source address; inbound TCP connections are registered/announced only with a permission. FingerprintAddr / AddrEqual have functional contracts.",
+  ref="9 (C02)", note="Assumed: A1 (check-then-send atomicity), net.IP.String/Equal relation (A14), socket semantics (specs/net.spec).", technique=TECH),
+ "C03": dict(
+  text="Deductive proof that authenticateRequest returns hasAuth only if MESSAGE-INTEGRITY is present, an auth handler is configured, the presented nonce validates, realm and username are present, the handler accepts, and the integrity check with the handler's key succeeds; 401/438 challenges carry the freshly minted nonce and the realm; every state-changing callee (CreateAllocation, Refresh, AddPermission, AddChannelBind, CreateTCPConnection, GetTCPConnection) has the precondition 'authenticated in this request and acting on an allocation of the authenticated user'; success responses are sent only when authenticated; the short nonce is accepted only with age 0..60 min and a full-length MAC over its timestamp.",
+  ref="9 (C03)", note="Assumed: ideal MAC / hmac.Equal (A4, specs/crypto.spec), stun text attributes and MessageIntegrity.Check (specs/stun.spec); base36 encode/decode use math/big and are trusted (not verified); the long hex NonceHash and nonce generation are not under contract yet.", technique=TECH),
+ "C04": dict(
+  text="Deductive proof that Fingerprint is exactly (16-byte src IP, 16-byte dst IP, ports mod 2^16, protocol); every handler looks its allocation up with (request source, local address of the request's socket, UDP) and passes exactly that allocation to every effect; CreateAllocation refuses a duplicate key and changes only its own key; DeleteAllocation removes only its own key; the relay loops write only to the owning 5-tuple's source over its own TurnSocket.",
+  ref="9 (C04)", note="Assumed: A1; To16 byte function of net.IP (A14); injectivity of the fingerprint on valid addresses follows from the functional contract and A14, not separately proved.", technique=TECH),
+ "C05": dict(
+  text="Deductive proof that the slice handed to the relay socket is the very slice decoded from DATA / the ChannelData payload (same base, offset, length), that HandleRequest classifies a datagram as ChannelData exactly by its first four bytes, that handleDataPacket passes number and payload of the decoded frame, that Encode produces number, length, payload bytes and zero padding (C11), that the relay loop forwards a peer datagram only whole (n = datagram length) with the bound channel number or a Data indication naming the real source address, and that each handler writes at most once.",
+  ref="9 (C05)", note="Assumed: datagram read semantics n = min(L, len(buf)) (specs/net.spec), stun.Build applies its setters faithfully. The server read loop (server.go readLoop) is not under contract yet.", technique=TECH),
+ "C06": dict(
+  text="Deductive proof of the lifetime arithmetic for all 2^32 LIFETIME values (requested if < 1 h else configured default; exact 64-bit arithmetic), that the same duration is armed in CreateAllocation's timer and reported in the LIFETIME attribute, that Refresh re-arms exactly that duration and lifetime 0 deletes exactly the own 5-tuple before success is sent, that the expiry closure deletes its own allocation, that Close closes the allocation, stops its timer, removes its TCP connections and closes the relay socket, and that DeleteAllocation removes only its key.",
+  ref="9 (C06)", note="Assumed: timers fire at their deadline (A2); A1. 'All permissions and channels are gone after Close' is NOT proved (needs a for-all-exists argument the solver does not find); only that no new state appears.", technique=TECH),
+ "C07": dict(
+  text="Deductive proof that AddPermission restarts (existing) or arms (new) the permission's timer with exactly the given timeout, that AddChannelBind arms/restarts the channel timer with the channel lifetime and the permission timer with the permission lifetime in both branches (universally over the bindings with that number), that the handlers pass ChannelBindTimeout / PermissionTimeout in that order, that expiry closures remove exactly their entry, and that timers of permissions and channels are pairwise distinct objects.",
+  ref="9 (C07)", note="Assumed: A1, A2. That NewServer fills in the 5/10-minute defaults and readLoop passes them on is not under contract yet.", technique=TECH),
+ "C08": dict(
+  text="Deductive proof of the one-to-one invariant: AddChannelBind preserves 'numbers pairwise distinct', 'peers pairwise distinct (IP and port)' and 'numbers in 0x4000-0x7FFF', rejects exactly the conflicting binds (under the invariant) with the two conflict errors and leaves bindings and permissions unchanged, the handler maps both conflicts to 400 and rejects out-of-range numbers before binding; lookups return the first match / nil iff none; RemoveChannelBind removes the number.",
+  ref="9 (C08)", note="Assumed: A1. The invariant is assumed on entry of each operation and re-established on exit (induction over operations is the standard soundness argument).", technique=TECH),
+ "C09": dict(
+  text="Deductive proof of the automatically generated safety obligations (index and slice bounds, nil dereference, nil map write, unchecked type assertion, division by zero, makeslice bounds, explicit panic, close of closed channel) on every path of every /repo function under contract (server request path from HandleRequest down, allocation package, wire codecs, stream framer, relay generators), for all inputs, plus framer progress (a successful frame consumes at least one byte) and loop variants where given.",
+  ref="9 (C09)", note="Partial: panics inside dependencies are assumed away; the server/client read loops and the client's HandleInbound are not under contract yet; 'still serves afterwards' is an argument from no-panic + termination + lock balance, not an obligation.", technique=TECH),
+ "C15": dict(
+  text="Deductive proof with ghost counters: relay generators leave no socket open on error paths; GetRandomEvenPort closes every probe socket; CreateAllocation opens exactly one relay socket/listener and fires one created event on success and nothing on failure; DeleteAllocation closes the allocation and fires exactly one deleted event iff the key existed; Close is idempotent, stops the timer, removes all TCP connections and closes the relay; TCP connection removal closes exactly once.",
+  ref="9 (C15)", note="Partial: goroutine/timer drain and Manager.Close / Server.Close are not under contract (Manager.Close needs a separation invariant between allocations); permission/channel event pairing is not proved.", technique=TECH),
+ "C16": dict(
+  text="Deductive proof that connection ids are checked unique across all allocations before insertion, that a connection is installed unbound with the configured bind timeout whose closure removes it if still unbound, that GetTCPConnection hands a connection out only to the allocation's user and flips bound exactly once, that inbound connections are registered only with a permission, that the Connect handler answers 446/447/403 for the respective errors, passes the authenticated owner's allocation and the decoded peer, and that CreateTCPConnection releases the manager lock and leaks no socket on every path.",
+  ref="9 (C16)", note="Assumed: io.Copy copies faithfully; A1, A2. Manager.RemoveTCPConnection is not under contract.", technique=TECH),
+ "C18": dict(
+  text="Deductive proof, over all control-flow paths (including error returns and armed defers) of every function under contract that takes a mutex, of lock balance (held count on exit equals entry), unlock-of-held, no self-deadlock (no re-acquisition of a lock this execution already holds) and the declared lock order.",
+  ref="9 (C18)", note="Only the lock clauses: data-race freedom, channel deadlocks and monitor invariants at unlock points (publish-before-arm window, DESIGN.md F5) are NOT decided by this check.", technique=TECH),
+ "C19": dict(
+  text="Deductive proof that every response built in internal/server carries the request's transaction id and goes to the request's socket and source address (caller-side clause at every buildAndSend / buildAndSendErr site), that Binding and Allocate report the request's source address, that Allocate reports the relayed address of the allocation just created and the lifetime armed, that an existing allocation yields either the cached success (same id, nothing created) or 437 (nothing changed), and that unknown comprehension-required attributes are answered 420 with the same method.",
+  ref="9 (C19)", note="Assumed: stun.Build applies setters faithfully; reachability/uniqueness of the relayed address is C20 + the OS.", technique=TECH),
+
  "C10": dict(
   text="Deductive proof, for all buffers, all reads and all stream contents, of contracts on the real framer: consumeSingleTURNFrame equals the spec function frameLen/complete on every byte string (exact, prompt, progress, reject); STUNConn.ReadFrom keeps the invariant 'buffer = bytes read but not yet returned' against a ghost byte stream, returns exactly the frame that starts at the consumed stream position, copies it to the caller and reads only while the buffer holds no complete frame; the client's ConnectionBind reply parsing consumes exactly one STUN message whatever the segmentation. The contracts mention the concatenated stream only, never the cut points.",
   ref="9 (C10)",
@@ -22,7 +64,11 @@ CLAIMED = {
   technique="contract-based deductive verification: WP/VC generation over go/ssa of the working tree, z3/cvc5"),
 }
 
-NA_REASON = {p: "engine tier for this property not built yet in this session (see DESIGN.md section 11); will be claimed once its contracts discharge" for p in ALL}
+NA_REASON = {p: "contracts for this property's functions are not written yet in this session (see DESIGN.md section 11)" for p in ALL}
+NA_REASON["C12"] = "client transaction code (client.go, internal/client/transaction.go) is not under contract yet; timer/response races are outside the family anyway (DESIGN.md 9, C12)"
+NA_REASON["C13"] = "client relayed-socket code (internal/client/udp_conn.go, binding.go) is not under contract yet"
+NA_REASON["C14"] = "liveness over unbounded histories with real timers: not decidable by contracts on this code; the necessary-condition lemmas planned in DESIGN.md 9 (C14) are not written yet"
+NA_REASON["C17"] = "lt_cred.go generators/handlers are not under contract yet"
 
 def main():
     commits = subprocess.run(["git", "-C", "/repo", "log", "--format=%h %s"], capture_output=True, text=True).stdout.strip().split("\n")
